@@ -419,7 +419,6 @@ def _(h, s, cur):
         z3.Select(al, clock(h, s)),
         h.f(C, "_waiters", s) > 0,
         q.wf(),
-        q.wf_pos(),
         z3.Select(wrec(h, s), 0) == 0,
         # queued events are allocated objects with a private asyncio.Event (ownership, see EVENT above)
         z3.ForAll([e], z3.Implies(q.count(e) >= 1, z3.And(e > 0, z3.Select(al, e))), patterns=[q.count(e)]),
@@ -542,9 +541,19 @@ class CondUnit(MethodUnit):
     def model_getattr(self, ip, obj, attr):
         if isinstance(obj, ShieldScope):
             if attr == "__enter__":
-                return Builtin("scope.__enter__", lambda ip: obj)
+
+                def enter(ip):
+                    ip.ctx.shield += 1
+                    return obj
+
+                return Builtin("scope.__enter__", enter)
             if attr == "__exit__":
-                return Builtin("scope.__exit__", lambda ip, *a: False)
+
+                def exit_(ip, *a):
+                    ip.ctx.shield -= 1
+                    return False
+
+                return Builtin("scope.__exit__", exit_)
         return NotImplemented
 
     def guarantee(self, seg, now, s, cur):
@@ -701,18 +710,26 @@ def popped_prefix_set(E, h, s):
 
 
 def notify_loop_inv(ip, env):
+    """phrased over the abstraction (how many events were popped from the head), so that it fits the real
+    `for _ in range(n)` loop and a `while` re-phrasing of it alike"""
     u = ip.ctx.unit
     h = H(ip.st)
     s, cur = u.self_val.t, ip.ctx.cur.t
     E = u.seg  # the loop starts in the state of the call (nothing is modified before it)
-    k = ip.ctx.loop_k
     n = u.n_term
+    popped = cq(h, s).lo - cq(E, s).lo
     out = [(nm, t) for nm, t in COND.inv_terms(h, s, cur)]
     out += [
-        ("popped_exactly_k_from_the_head", z3.And(cq(h, s).lo == cq(E, s).lo + k, k >= 0, k <= z3.If(n > 0, n, 0))),
+        ("popped_at_most_n_from_the_head", z3.And(popped >= 0, popped <= z3.If(n > 0, n, 0))),
         ("popped_events_set_others_untouched", popped_prefix_set(E, h, s)),
         ("owner_and_lock_untouched", z3.And(cowner(h, s) == cowner(E, s), lock_unchanged(E, h, s), wrec(h, s) == wrec(E, s))),
     ]
+    if ip.ctx.loop_k is not None:
+        out.append(("one_event_popped_per_iteration", popped == ip.ctx.loop_k))
+    else:
+        ln = env.vars.get("n")
+        if isinstance(ln, Sym) and ln.ty is INT:
+            out.append(("countdown_matches_popped", ln.t == n - popped))
     return out
 
 
@@ -810,6 +827,12 @@ class CondNotifyAll(CondUnit):
         bind=bind_self,
     )
 
+    def on_entry(self, ip, pre, a):
+        # model fact of real deques (counts are true multiplicities): a counted element occurs at some position.
+        # Only needed here (every queued event is visited by the loop), kept out of the shared assumptions because
+        # its Skolem positions feed a matching loop in z3 when combined with the per-index facts.
+        ip.st.assume(cq(pre, a.self).wf_pos())
+
     def on_exit(self, ip, pre, a, exc, ret):
         if exc is None:
             ip.ctx.oblige("Condition.notify_all/post:accepted_only_from_the_lock_holder", L.owner(pre, clock(pre, a.self)) == a.cur, "post")
@@ -892,6 +915,12 @@ class CondWait(CondUnit):
         if exc is not None and self.waited is None and exc.pycls is not None and exc.pycls.__name__ == "CancelledError":
             # cancelled on entry: the lock is kept, nobody was enqueued, nothing was released
             ip.ctx.oblige("Condition.wait/post:cancelled_on_entry.no_effect_lock_kept", cond_unchanged(self.seg, H(ip.st), a.self), "post")
+        if exc is not None and exc.pycls is not None and exc.pycls.__name__ == "CancelledError" and self.waited is not None:
+            tag = exc.tag if exc.tag is not None else z3.BoolVal(True)
+            # an AnyIO cancellation leaves wait() only from the interrupted event wait (where the notification is
+            # passed on); the re-acquire is shielded, so afterwards the caller holds the lock again
+            ip.ctx.oblige("Condition.wait/post:interrupted.anyio_cancellation_never_escapes_after_a_consumed_notification", z3.Implies(tag, z3.BoolVal(self.wait_case == "cancelled")), "post")
+            ip.ctx.oblige("Condition.wait/post:interrupted.lock_reacquired_before_an_anyio_cancellation_propagates", z3.Implies(tag, z3.And(L.owner(H(ip.st), clock(H(ip.st), a.self)) == a.cur, cowner(H(ip.st), a.self) == a.cur)), "post")
         if exc is None:
             ip.ctx.oblige("Condition.wait/post:returned_through_a_notification", z3.BoolVal(self.waited is not None and self.wait_case == "returned"), "post")
             ip.ctx.oblige("Condition.wait/post:accepted_only_from_the_lock_holder", L.owner(pre, clock(pre, a.self)) == a.cur, "post")
